@@ -1,17 +1,31 @@
 #!/bin/bash
-# tools/regress.sh <F#> <budget> : revert one fix in a scratch worktree, run the checks that are supposed to see the defect,
-# keep the first replay artefact of each under /verif/regressions/<F#>/
-F=$1; BUDGET=$2
+# tools/regress.sh <F#> <budget> : revert one fix (git show <commit> | git apply -R) in a scratch worktree of /repo, run the checks that
+# are supposed to see the defect, keep the first replay artefact of each under /verif/regressions/<F#>/
+F=$1; BUDGET=${2:-280}
+case $F in
+  F1) COMMIT=0b1e1eb; CHECKS="C01 C02";;
+  F2) COMMIT=5769dcc; CHECKS="C13 C16";;
+  F3) COMMIT=4e9839e; CHECKS="C19";;
+  F4) COMMIT=e2679b2; CHECKS="C20";;
+  F5) COMMIT=49f2da8; CHECKS="C16";;
+  F6) COMMIT=dc0e79c; CHECKS="C14 C16";;
+  F7) COMMIT=5e13046; CHECKS="C16";;
+  F8) COMMIT=b34ba3e; CHECKS="C01";;
+  *) echo "unknown finding $F"; exit 2;;
+esac
 WT=/tmp/wt-regress-$F; OUT=/tmp/regress-$F
 rm -rf $OUT; mkdir -p $OUT/evidence $OUT/replays /verif/regressions/$F
 git -C /repo worktree add -q $WT HEAD || exit 9
-git -C $WT apply /tmp/fixseeds/$F/patch.diff || { echo "[$F] reverse patch does not apply"; git -C /repo worktree remove --force $WT; exit 9; }
+git -C /repo show $COMMIT -- src | git -C $WT apply -R || { echo "[$F] reverse patch does not apply"; git -C /repo worktree remove --force $WT; exit 9; }
 cd /verif
-for c in $(cat /tmp/fixseeds/$F/checks); do
+for c in $CHECKS; do
   rm -f $OUT/replays/*
   PYTHONPATH=$WT/src RP2_REPO=$WT VERIF_EVIDENCE_DIR=$OUT/evidence VERIF_REPLAY_DIR=$OUT/replays ./check $c --tier quick --budget $BUDGET > $OUT/$c.out 2>&1; RC=$?
   echo "[$F] with the fix reverted: check $c exit=$RC, $(grep -c '^VIOLATION' $OUT/$c.out) VIOLATION line(s): $(grep -m1 'what:' $OUT/$c.out | cut -c1-220)"
   first=$(grep -m1 '^VIOLATION' $OUT/$c.out | sed 's/.*replay=//')
   if [ -n "$first" ] && [ -f "$first" ]; then cp "$first" /verif/regressions/$F/$c.json; fi
+  # the recorded artefact must fail here (fix reverted) ...
+  PYTHONPATH=$WT/src RP2_REPO=$WT VERIF_EVIDENCE_DIR=$OUT/evidence VERIF_REPLAY_DIR=$OUT/replays ./check $c --replay /verif/regressions/$F/$c.json > $OUT/$c.replay 2>&1
+  echo "[$F] replay of regressions/$F/$c.json with the fix reverted: exit=$?"
 done
-cd /; git -C /repo worktree remove --force $WT
+cd /; git -C /repo worktree remove --force $WT; rm -rf $OUT
